@@ -18,6 +18,14 @@ def streams(tier, seed):
     rng = lib.Rng(f"C10-{seed}")
     n = 160 if tier == "quick" else 3000
     cases = lib.load_corpus(PROP, "hier-compile") + c01.gen_cases(rng, n, 3 if tier == "quick" else 4)
+    # a third of the cases are compiled with derived resources named like resources of the hierarchy whose calculator
+    # answers None ("not applicable") everywhere: the compiled hierarchy must be what it is without them
+    import hier as H
+    for c in cases:
+        if "derived_none" not in c and rng.random() < 0.34:
+            names = sorted({r["name"] for n, _ in H._nodes(c["routine"]) for r in n["resources"]})
+            if names:
+                c["derived_none"] = rng.sample(names, min(len(names), rng.randint(1, 2)))
     return [c01.mk_stream(cases, "check_structure")]
 
 
